@@ -42,6 +42,7 @@ def session(rng, nnodes, nmsgs):
             relay[i] = True
             ops.append(f"{names[i]} set multicast_relay T")
     kinds = {i: ops[i].split()[2] for i in range(len(tree))}
+    fragoff = set()
     for _ in range(nmsgs):
         s = rng.choice([i for i in range(len(tree)) if allow[i] and not relay[i]] or [0])
         if relay[s] or not allow[s]:
@@ -60,6 +61,17 @@ def session(rng, nnodes, nmsgs):
                     ops += [f"{names[i]} update", f"{names[i]} read", f"{names[i]} read"]
         lvl = rng.choice(["N", 0, 1, 2, 3, 4])
         n = rng.choice([0, 1, 10, 24, 24, 25, 60, 144])
+        if rng.random() < 0.15:
+            # a sender without fragmentation: a message longer than one frame is documented to be truncated to 24 bytes
+            fv = rng.choice('FFT')
+            ops.append(f"{names[s]} set fragmentation {fv}")
+            (fragoff.add if fv == "F" else fragoff.discard)(s)
+            # max_message_length is a plain attribute that the fragmentation switch sets to 24 / 144; an application that
+            # raises it again on a node without fragmentation gets its long messages truncated instead of rejected
+            if rng.random() < 0.6:
+                ops.append(f"{names[s]} set max_message_length 144")
+        if fragoff - {s}:
+            n = min(n, 24)   # a receiver without fragmentation takes fragments as separate frames: outside the property
         ops.append(f"{names[s]} multicast {rbytes(rng, n)} {rng.randint(0, 127)} {lvl}")
         ops.append(f"{names[rng.randrange(len(tree))]} update")
         ops.append(f"{names[rng.randrange(len(tree))]} update")
@@ -91,7 +103,7 @@ class C14(PropCheck):
             if not l.startswith("net ") or " multicast " not in l:
                 continue
             names, parts = l.split(" ; "), io.split(" ; ")
-            addr, allow, relay = {}, {}, {}
+            addr, allow, relay, frag, maxlen = {}, {}, {}, {}, {}
             what, cur, got = None, None, {}
             airs = []
             rid_of, last_radios = {}, None
@@ -161,6 +173,11 @@ class C14(PropCheck):
                     last_radios = f[2]
                 if t[1] == "set" and t[2] == "allow_multicast":
                     allow[t[0]] = t[3] == "T"
+                if t[1] == "set" and t[2] == "fragmentation" and frag.get(t[0], True) != (t[3] == "T"):
+                    frag[t[0]] = t[3] == "T"
+                    maxlen[t[0]] = 144 if frag[t[0]] else 24
+                if t[1] == "set" and t[2] == "max_message_length":
+                    maxlen[t[0]] = int(t[3])
                 if t[1] == "set" and t[2] == "multicast_relay":
                     relay[t[0]] = t[3] == "T" and allow[t[0]]
                 if len(f) == 4 and f[3] != "[]":
@@ -184,10 +201,15 @@ class C14(PropCheck):
                     if what:
                         break
                     got = {}
+                    if res.startswith("exc=ValueError") and len(t[2]) // 2 > maxlen.get(t[0], 144):
+                        cur = None   # documented: a message longer than max_message_length is rejected
+                        continue
                     if res.startswith("exc="):
                         what = f"multicast() raised {res}"
                         break
-                    cur = (t[0], t[4], int(t[3]), t[2], res, k)
+                    # the bytes that go out: truncated to one frame on a sender without fragmentation (as of this call)
+                    sent = t[2] if frag.get(t[0], True) or len(t[2]) <= 48 else t[2][:48]
+                    cur = (t[0], t[4], int(t[3]), sent, res, k)
                 elif t[1] == "read" and cur is not None:
                     got.setdefault(t[0], []).append(res if res == "N" else res.split()[0])
             if what is None:
